@@ -250,7 +250,10 @@ Definition run_title_case
   let toks' := map (fun q => match q with (s, e, k, m) => mktok (mkspan s e) (kind_of k m) end) toks in
   make_title_case lower upper isl dc dm toks' src.
 
-(* which dictionary keys does a run ask for?  (used by the driver to report missing facts) *)
+(* which facts does a run ask for?  (used by the driver to report missing facts)
+   Every character the guard of the copy can be asked about is a source character, a character of a
+   canonical spelling, or the to_ascii_uppercase / to_ascii_lowercase image of one (an earlier,
+   overlapping token of a malformed list may already have written there): all of them must be in `chars`. *)
 Definition run_missing_keys
            (chars : list (char * (bool * (list char * list char))))
            (canon : list (text * option text))
@@ -259,18 +262,16 @@ Definition run_missing_keys
            (src : text) : bool :=
   let lower c := match assoc_char chars c with Some (_, (l, _)) => l | None => [c] end in
   let isl c := match assoc_char chars c with Some (b, _) => b | None => false end in
-  existsb (fun q => match q with
+  let no_fact c := match assoc_char chars c with None => true | Some _ => false end in
+  let no_facts c := no_fact c || no_fact (ascii_upper c) || no_fact (ascii_lower c) in
+  existsb no_facts src
+  || existsb (fun e => match snd e with Some cc => existsb no_facts cc | None => false end) canon
+  || existsb (fun q => match q with
      | (s, e, 0, Some md) =>
          match get_content (mkspan s e) src with
          | Ok w =>
-             (m_proper md && match assoc_text canon w with
-                              | None => true
-                              | Some None => false
-                              | Some (Some cc) =>   (* is_case_variant asks for the case mappings of the canonical characters *)
-                                  existsb (fun c => match assoc_char chars c with None => true | Some _ => false end) cc
-                              end)
+             (m_proper md && match assoc_text canon w with None => true | Some _ => false end)
              || match assoc_text meta (to_lower lower isl w) with None => true | Some _ => false end
-             || existsb (fun c => match assoc_char chars c with None => true | Some _ => false end) w
          | Panic _ => false
          end
      | _ => false end) toks.
